@@ -201,6 +201,10 @@ func (configgen *ConfigGeneratorImpl) deltaFromServices(key model.ConfigKey, pro
 		// the service's namespace), so all of its subset clusters are candidates for removal. The subset
 		// clusters that are still needed are rebuilt, and rebuilt clusters are dropped from the deleted list.
 		deletedClusters = append(deletedClusters, subsetClusters[service.Hostname.String()].UnsortedList()...)
+		// Likewise for the plain clusters: an updated service may no longer get a cluster at all (a DNS
+		// service left without endpoints is skipped by the cluster builder). Clusters that are rebuilt
+		// are dropped from the deleted list.
+		deletedClusters = append(deletedClusters, serviceClusters[service.Hostname.String()].UnsortedList()...)
 	}
 	return services, deletedClusters
 }
